@@ -112,6 +112,14 @@ def cotangent(ctx):
         fr = ev.eval_function(fi)
         R = strip_wrappers(ev.result(fr))
         vj = [e.data for e in ev.events if e.kind == "call" and func_name(e.data) == "jax.vjp"]
+        if len(vj) == 0:
+            other = sorted({(func_name(e.data) or "").split(".")[-1] for e in ev.events if e.kind == "call" and
+                            (func_name(e.data) or "") in ("jax.value_and_grad", "jax.grad", "jax.jacrev", "jax.jacfwd",
+                                                           "jax.jvp", "jax.linearize")})
+            if other:
+                ctx.rep.note(f"wave_function_auto.{meth}: the derivative is taken with {other} rather than vjp; the vjp binding "
+                             f"rules are not applied")
+                continue
         if len(vj) != 1:
             ctx.ob("BIND-2", f"wave_function_auto.{meth}: one vjp call", False, f"{len(vj)} vjp calls", fi)
             continue
@@ -287,4 +295,7 @@ def cotangent(ctx):
         ctx.ob("BIND-2", f"wave_function_auto.{helper}: returns the overlap of the rotated walker", lin_ok,
                show(hres, maxdepth=1)[:80], hf)
     if n < 2:
-        raise AnalysisError("cotangent rule matched fewer than 2 sites")
+        # the derivative is taken with another entry point of the AD API (value_and_grad, grad, jacrev ...): the rules above
+        # are written for the vjp form; not applied
+        ctx.rep.note(f"wave_function_auto force bias: {n} of 2 vjp sites recognised; the cotangent / primal binding rules are "
+                     f"not applied to the entry points written with another derivative API")
